@@ -33,6 +33,11 @@ func runC01(c *Ctx) {
 	c.ruleDispatcherLoop("R01.7")
 	// "single dispatcher" across runs: the previous run's dispatcher has exited before the next one is spawned
 	c.ruleDispatcherJoined("R01.8")
+	// a job cancelled before it started is never invoked: Queued is stored before the job is published, so a late
+	// store cannot overwrite Processing and let Close() "succeed" on a running job
+	c.ruleQueuedBeforePublication("R01.9")
+	// an accepted job runs once the worker is running: the wake-ups that announce it are not lost
+	c.ruleNotifyAfterChange("R01.10")
 }
 
 // concreteDequeues: the library's own queue implementations of Dequeue.
@@ -162,21 +167,12 @@ func (c *Ctx) ruleOneHandOff(rule string) {
 func (c *Ctx) handOffArgIsDequeued(rule string) {
 	R := c.R
 	info := R.Step.Info()
-	seeds := map[types.Object]bool{}
-	ast.Inspect(R.Step.Body, func(n ast.Node) bool {
-		as, ok := n.(*ast.AssignStmt)
-		if !ok || len(as.Rhs) != 1 {
-			return true
-		}
-		if call, ok := ast.Unparen(as.Rhs[0]).(*ast.CallExpr); ok {
-			if k := resolveCallee(info, call).Key; k == kDequeue || k == kDequeueAck {
-				if id, ok := as.Lhs[0].(*ast.Ident); ok {
-					seeds[info.ObjectOf(id)] = true
-				}
-			}
-		}
-		return true
-	})
+	pv := c.deqProvenance()
+	if pv.Problem != "" {
+		c.Rep.undecided(rule, R.Step.Short(), "dequeue provenance", "", pv.Problem)
+		return
+	}
+	seeds := pv.Val
 	parse := c.P.FuncByKey("parseToJob")
 	d := derivedFrom(R.Step, seeds, func(call *ast.CallExpr) bool {
 		return parse != nil && resolveCallee(info, call).Key == parse.Key
@@ -321,14 +317,6 @@ func (c *Ctx) submitSegments(f *Func) []Segment {
 	}
 	v := c.vocab([]string{"enq", "enqok=", "Submitted", "notify", "close", "status:", "json", "jsonerr=", "break"}, map[string]bool{"close": true})
 	sr := v.seq("submit", true)
-	base := sr.classify
-	jsonFn := c.methodOf(c.R.JobT, "Json")
-	sr.classify = func(fr *Frame, call *ast.CallExpr, ce *Callee, args []Value) *callEvent {
-		if jsonFn != nil && ce.Key == jsonFn.Key {
-			return &callEvent{Name: "json", Atomic: true, Results: []Value{{Kind: VTok, S: "jsonval"}, {Kind: VTok, S: "jsonerr"}}}
-		}
-		return base(fr, call, ce, args)
-	}
 	segs := sr.segments(f)
 	c.cache[key] = segs
 	return segs
@@ -388,6 +376,66 @@ func (c *Ctx) ruleSubmitPaths(rule string, chk submitChecks) {
 		if chk.sameJob {
 			c.sameJobReturned(rule, f)
 		}
+		if chk.reject {
+			c.closedIsRejected(rule, f)
+		}
+	}
+}
+
+// closedIsRejected: a submit function only ever closes the job it has just tried to enqueue (its reject branch); a
+// Close on anything else — the batch parent, another item — counts the wrong job off.
+func (c *Ctx) closedIsRejected(rule string, f *Func) {
+	info := f.Info()
+	var enqArg types.Object
+	for _, cs := range c.P.calls(f) {
+		if (cs.Callee.Key == kEnqueueQ || cs.Callee.Key == kEnqueuePQ) && len(cs.Call.Args) >= 1 {
+			enqArg = rootIdent(info, cs.Call.Args[0])
+		}
+	}
+	if enqArg == nil {
+		return
+	}
+	for _, cs := range c.P.calls(f) {
+		if jobMethod(info, cs.Call, cs.Callee) != "Close" {
+			continue
+		}
+		recv := cs.Callee.Recv
+		_, isId := ast.Unparen(recv).(*ast.Ident)
+		ro := rootIdent(info, recv)
+		same := ro == enqArg
+		if bt, isSlice := enqArg.Type().Underlying().(*types.Slice); !same && ro != nil && isSlice && types.Identical(bt.Elem(), types.Typ[types.Byte]) {
+			// the encoded form of the job was enqueued: val, err := j.Json()
+			all, n := assignedOnlyFrom(f, enqArg, func(rhs ast.Expr, idx, cnt int) bool {
+				call, ok := ast.Unparen(rhs).(*ast.CallExpr)
+				if !ok || idx != 0 {
+					return false
+				}
+				ce := resolveCallee(info, call)
+				return ce.Recv != nil && rootIdent(info, ce.Recv) == ro
+			})
+			same = all && n > 0
+		}
+		if !same && ro != nil {
+			// job and encoded form come out of one call: j, val, err := encode(...)
+			ast.Inspect(f.Body, func(n ast.Node) bool {
+				if as, ok := n.(*ast.AssignStmt); ok && len(as.Rhs) == 1 && len(as.Lhs) > 1 {
+					hasJob, hasArg := false, false
+					for _, l := range as.Lhs {
+						if o := rootIdent(info, l); o == ro {
+							hasJob = true
+						} else if o == enqArg {
+							hasArg = true
+						}
+					}
+					if hasJob && hasArg {
+						same = true
+					}
+				}
+				return true
+			})
+		}
+		c.Rep.check(isId && same, rule, f.Short(), "Close on something other than the refused job", c.P.pos(cs.Call), "the reject branch closes the job whose Enqueue was refused",
+			f.Short()+" closes "+types.ExprString(recv)+", which is not the job it has just tried to enqueue: the refused item is never counted off (and the batch parent or another job is closed instead)")
 	}
 }
 
